@@ -8,7 +8,7 @@ from . import common as C
 # --------------------------------------------------------------------------- transforms (oracle side)
 
 def tr_apply(op, data):
-    if op in ("keep", "fail", "slowkeep", "barrierkeep", "failonce"):
+    if op in ("keep", "fail", "slowkeep", "barrierkeep", "failonce", "litter"):
         return data
     if op == "shrink":
         return data[:2]
